@@ -225,6 +225,8 @@ var c06Templates = []string{
 	// bodies that start in the middle of a line (one-line let, match arm, else) with the pipeline broken before |>:
 	// the operator line continues the expression wherever it is indented
 	"package main\n\ntype AB =\n  | A\n  | B\n\nlet inc (x:int) =\n  x + 1\n\nlet viaInc (n:int) = n@2@|> inc\n\nlet pick (ab:AB) (n:int) =\n  match ab with\n  | A -> n\n  | B -> n@4@|> inc@4@|> inc\n\nlet choose (c:bool) (n:int) =\n  if c then\n    n\n  else n@2@|> inc\n\nlet pick2 (ab:AB) (n:int) =\n  match ab with\n  | B -> n@6@|> inc\n  | A -> n\n",
+	// lambdas whose bodies start on the line after '->': several statements, a nested block, as a let value and as an argument
+	c06Prelude + "let visit (xs:[]int) (k:int) =\n  let g = fun (x:int) ->\n            let y = x + k\n            y * 2\n  let h = fun (x:int) ->\n       if x > k then\n         x\n       else\n         k\n  xs\n  |> slice.Map (fun x ->\n      let z = g x\n      h z)\n  |> slice.Filter (fun x -> x > 0)\n",
 }
 
 func c06RunTemplate(t int) {
@@ -257,6 +259,7 @@ func Harness_C06B_Nested()                { c06RunTemplate(3) }
 func Harness_C06B_If()                    { c06RunTemplate(4) }
 func Harness_C06B_InnerMatchThenDefault() { c06RunTemplate(5) }
 func Harness_C06B_MidLineBodyPipe()       { c06RunTemplate(6) }
+func Harness_C06B_LambdaBodyNextLine()    { c06RunTemplate(7) }
 
 // break-site and decoration choices alone (concrete columns): same output as
 // the most compact layout
